@@ -4,13 +4,15 @@ import Cell2v.Model.Modules
 Model driver for C11.
 
 ops
-  reset n=<n> app=<0|1|2> kind=<gen|neg|shipped> start=<s0,s1,..> stop=<s0,s1,..> [cbS=<none|stop|gostop|panic>] [cbX=<none|start|stop|panic>] [name=..]
+  reset n=<n> app=<0|1|2> kind=<gen|neg|shipped> start=<s0,s1,..> stop=<s0,s1,..> [cbS=<none|stop|gostop|panic|nil>] [cbX=<none|start|stop|panic|nil>] [name=..]
         app: 0 plain ModList, 1 baseapp.App, 2 node/app.App (StartNode / StopNode through a launch mode: `Node.step`
         of the model); node only: svc=<P|M per service> mode=<reg|empty|unreg> (the node's StartMode: registered /
         empty / not registered) nodefault=1 (no default launch mode has been set) prep=0 (StartNode without Prepare)
         readd=1 (the launch mode registers n fresh modules, scripts T, every time it runs; default: only the first time)
         cbS / cbX: what the start- / stop-completion callback does when invoked: issue Stop (directly, or on
-        another goroutine that it waits for) / Start — logged as RX / RS, followed by what that call did
+        another goroutine that it waits for) / Start — logged as RX / RS, followed by what that call did;
+        nil (app=1 both phases, app=2 stop phase: where the code tests `finish != nil`): no callback is passed at all —
+        no fs / fx token can be logged, what the phase did to the App's state shows in what the next begin does
         scripts: what module i does synchronously inside Start / Stop, a string over
         T (next(true)), F (next(false)), ! (panic); empty = completes later (see `fire`);
         A / a: AddModule(a new module with scripts T,T / with delayed completion) -> token A<id>;
@@ -99,20 +101,21 @@ def tokOfEv (ph : Bool) : Ev → String
   | .finish b => (if ph then "fs" else "fx") ++ bch b
   | .oob => "panic"
 
-/-- what a plain App / ModList does, in the node's vocabulary: the caller's callback is the phase's `finish` -/
-def plainLog : List AEv → List NEv
-  | [] => []
-  | .ev ph (.finish b) :: r => .app (.ev ph (.finish b)) :: (if ph then NEv.fin b else NEv.finX b) :: plainLog r
-  | e :: r => .app e :: plainLog r
+/-- is the completion callback of that phase absent (cbS / cbX = nil)?  Only where the code allows it: App.Start / App.Stop
+and StopNode test `finish != nil`.  StartNode calls it unconditionally (a nil function call: handled in `absorb.finish` as a
+callback that panics without logging); ModList.Start / Stop take a mandatory callback (nil = none there) -/
+def Case.absent (c : Case) (ph : Bool) : Bool :=
+  (if ph then c.cbS else c.cbX) == "nil" && c.isApp && (!c.isNode || !ph)
 
-/-- one operation on the object under test: `Node.step` for a node, `App.step` otherwise -/
+/-- one operation on the object under test: `Node.step` for a node, `App.step` otherwise; the caller's callbacks
+are invoked only when there are any (`dropAbsent` of the model) -/
 def Case.stepOp (c : Case) (op : NOp) : Case × List NEv :=
   if c.isNode then
     let r := (Node.mk c.env c.app).step op
-    ({ c with app := r.1.app }, r.2)
+    ({ c with app := r.1.app }, dropAbsent (!c.absent true) (!c.absent false) r.2)
   else
     let r := c.app.step op.toAOp
-    ({ c with app := r.1 }, plainLog r.2)
+    ({ c with app := r.1 }, dropAbsent (!c.absent true) (!c.absent false) (plainLog r.2))
 
 /-- App.Start/Stop (guarded), StartNode/StopNode, or ModList.Start/Stop (a plain ModList is an App
 whose guard is open); `none` = refused -/
@@ -160,14 +163,16 @@ where
   /-- the caller's completion callback of a phase runs (scripted: it may issue Stop / Start itself) -/
   finish (fuel : Nat) (c : Case) (ph b : Bool) (es : List NEv) (log : List String) (frames : List Frame) :
       Case × List String × List Frame :=
-    let log := log ++ [tokOfEv ph (.finish b)]
+    -- StartNode(id, nil): the closure calls the nil callback unconditionally - a callback that panics before it can log anything
+    let nilCall := (if ph then c.cbS else c.cbX) == "nil" && c.isNode && ph
+    let log := if nilCall then log else log ++ [tokOfEv ph (.finish b)]
     let stopOK := c.isApp && !ph && b
     let c := if stopOK then { c with fxT := c.fxT + 1 } else c
     if stopOK && c.fxT ≥ 2 then ({ c with over := true }, log, [])
     else
       let cb := if ph then c.cbS else c.cbX
-      if cb == "none" then absorb fuel c es log frames
-      else if cb == "panic" then
+      if cb == "none" || (cb == "nil" && !nilCall) then absorb fuel c es log frames
+      else if cb == "panic" || nilCall then
         -- the callback panics: nothing else of this `next` call runs (`finish` is its last action anyway)
         ({ c with pan := true }, log, [])
       else
@@ -386,6 +391,9 @@ structure Spec where
   launchable : Bool := true -- node: Prepare was called and LaunchApp finds a launch mode (named and registered, or the default)
   cbPanicS : Bool := false  -- the start-completion callback panics when invoked (cbS=panic)
   cbPanicX : Bool := false
+  cbNilS : Bool := false    -- no start-completion callback is passed (cbS=nil on an App): the phase's report cannot be observed,
+  cbNilX : Bool := false    --   only what the App does afterwards
+  cbNilCallS : Bool := false  -- node: StartNode(id, nil) - the closure calls the nil callback all the same: a panic, no token
   mustFail : Option Nat := none   -- a real shipped module runs at this position with a fault injected that makes its Start fail
   realPos : Option Nat := none    -- a real shipped module runs at this position (real=<pos>:<name>)
   realPanicS : Bool := false      -- ... and is known to panic in its Start in this scenario (its script says `!`)
@@ -448,6 +456,18 @@ def classify (ph : Bool) (order : List Nat) (dead : List Nat) (tr : List Ev) : S
   else if (finishes tr).contains true && (enters tr != order || (calls tr).any fun c => !c.2) then "C11/wrong-outcome"
   else if completeB tr && (finishes tr).isEmpty then "C11/finish-missing"
   else "C11/phase-log-not-canonical"
+
+/-- A phase whose completion callback is absent logs no fs / fx token.  What it has to have reported to the App is read
+off the modules' reports: `false` at the first failure report, `true` once every module of the order was entered and has
+reported success — the App's state (what a later Start / Stop does) must be the one that report leads to. -/
+def impliedFinish (order : List Nat) (tr : List Ev) : Option Bool :=
+  if (calls tr).any (fun c => !c.2) then some false
+  else if enters tr == order && (enters tr).all (fun m => countCalls tr m ≥ 1) then some true
+  else none
+
+/-- the phase log with the report an absent callback would have been given -/
+def effTr (absent : Bool) (order : List Nat) (tr : List Ev) : List Ev :=
+  if absent && (finishes tr).isEmpty then tr ++ ((impliedFinish order tr).toList.map Ev.finish) else tr
 
 /-- the checks on one phase log; `none` = fine -/
 def checkPhase (s : Spec) (ph : Bool) (tr : List Ev) : Option String :=
@@ -554,6 +574,9 @@ def specLine (s : Spec) (line : String) : Spec × String :=
       ({ n := (kvNat ws "n").getD 0, nNow := (kvNat ws "n").getD 0, nS := (kvNat ws "n").getD 0, nX := (kvNat ws "n").getD 0, isApp := (kvNat ws "app").getD 0 ≥ 1, kind := (kv ws "kind").getD "",
          isNode := (kvNat ws "app").getD 0 == 2, readd := (kv ws "readd") == some "1",
          cbPanicS := (kv ws "cbS") == some "panic", cbPanicX := (kv ws "cbX") == some "panic",
+         cbNilS := (kv ws "cbS") == some "nil" && (kvNat ws "app").getD 0 ≥ 1,
+         cbNilCallS := (kv ws "cbS") == some "nil" && (kvNat ws "app").getD 0 == 2,
+         cbNilX := (kv ws "cbX") == some "nil" && (kvNat ws "app").getD 0 ≥ 1,
          realPos := (match ((kv ws "real").getD "").splitOn ":" with | [pos, _] => pos.toNat? | _ => none),
          realPanicS := (match ((kv ws "real").getD "").splitOn ":" with
            | [pos, _] => (((((kv ws "start").getD "").splitOn ",").getD (pos.toNat?.getD 0) "").startsWith "!") | _ => false),
@@ -576,6 +599,17 @@ def specLine (s : Spec) (line : String) : Spec × String :=
       else
         -- (a node's second StartNode runs PrepareModules again — `P` — before the App's guard refuses it)
         let effective := obs != "-" && obs != "noop" && obs != "over" && obs != "P"
+        -- what the start phase reported to the App (read off the modules' reports when there is no callback to log it)
+        let trSeff := effTr s.cbNilS (ord s.nS true) s.trS
+        let normal := s.begunS && (finishes trSeff).contains true && !s.begunX
+        -- an empty list whose phase has no callback: nothing at all can be observed of an accepted call; it counts as
+        -- accepted exactly when the guard has to accept it
+        let effective := if h == "begin" && s.isApp && !s.broken && s.nNow == 0 then
+            (match phaseOf ws with
+             | some true => if s.cbNilS then !s.begunS else effective
+             | some false => if s.cbNilX then normal else effective
+             | none => effective)
+          else effective
         -- state guard (only meaningful while the scripted modules kept the discipline)
         let guard : Option String :=
           if h == "begin" && s.isApp && !s.broken then
@@ -587,7 +621,6 @@ def specLine (s : Spec) (line : String) : Spec × String :=
               else if effective && s.begunS then some "C11/start-outside-prepared"
               else if !effective && !s.begunS && nodeOK then some "C11/start-ignored" else none
             | some false =>
-              let normal := s.begunS && (finishes s.trS).contains true && !s.begunX
               if effective && !normal then some "C11/stop-outside-normal"
               else if !effective && normal then some "C11/stop-ignored" else none
             | none => none
@@ -599,22 +632,26 @@ def specLine (s : Spec) (line : String) : Spec × String :=
             | none => s
           else s
         let unknown := toks.any fun t => (parseTok t).isNone && !isPanicTok t && t != "-" && t != "noop" && t != "over" && t != "panic" && t != "RX" && t != "RS" && t != "RG" && t != "undelivered" && !isAddTok t && t != "P" && !isSvcTok t
+        let endedBefore := !(h == "begin" && effective && phaseOf ws == some true) && s.begunS && (impliedFinish (ord s.nS true) s.trS).isSome
         let (s, cbViolation) := procToks s "" toks
+        -- node, StartNode(id, nil): did the start phase end in this op?  Then (and only then) StartServices ran and the
+        -- nil callback was called: one panic, which may reach the caller
+        let nilEnded := s.cbNilCallS && s.begunS && !endedBefore && (impliedFinish (ord s.nS true) s.trS).isSome
         let nowBroken := s.broken || !disciplinedB s.trS || !disciplinedB s.trX
         let r := match guard, cbViolation with
           | some g, _ => some g
           | none, some v => some v
           | none, none =>
             if toks.contains "undelivered" && !nowBroken then some "C11/finish-missing"
-            else if toks.contains "panic" && !nowBroken && !panicsExplained s.cbPanicS s.cbPanicX "" toks then some "C11/panic-escapes"
+            else if toks.contains "panic" && !nowBroken && !(if s.cbNilCallS then nilEnded && (toks.filter (· == "panic")).length ≤ 1 else panicsExplained s.cbPanicS s.cbPanicX "" toks) then some "C11/panic-escapes"
             else if s.realSilent then some "C11/module-never-completes"
             else if (match s.mustFail with | some p => s.begunS && builtinFailureIgnored p s.trS | none => false) then
               some "C11/builtin-module-failure-not-reported"
             else if unknown then some "C11/unreadable-log"
-            else if s.isNode && !nowBroken && !servicesOK s.svcToks [] toks then some "C11/services-not-started-before-report"
-            else match (if s.begunS then checkPhase s true s.trS else none) with
+            else if s.isNode && !nowBroken && !(if s.cbNilCallS then toks.filter isSvcTok == (if nilEnded then s.svcToks else []) else servicesOK s.svcToks [] toks) then some "C11/services-not-started-before-report"
+            else match (if s.begunS then checkPhase s true (effTr s.cbNilS (ord s.nS true) s.trS) else none) with
               | some v => some v
-              | none => if s.begunX then checkPhase s false s.trX else none
+              | none => if s.begunX then checkPhase s false (effTr s.cbNilX (ord s.nX false) s.trX) else none
         let s := { s with broken := nowBroken }
         match r with
         | some v => (s, "VIOLATION " ++ v ++ " " ++ op ++ " => " ++ obs)
